@@ -18,5 +18,6 @@ fi
 cd "$(dirname "$0")"
 VERIF_REPO="$S/repo" VERIF_EVIDENCE_DIR="$S/evidence" VERIF_REPLAY_DIR="$S/replays" ./check "$PROP" "$TIER" 2>&1 | cut -c1-300 | grep -v "^KNOWN-FINDING" | tail -8
 rc=${PIPESTATUS[0]}
+[ -n "${KEEP_REPLAYS:-}" ] && { rm -rf "$KEEP_REPLAYS"; cp -r "$S/replays" "$KEEP_REPLAYS"; }
 echo "try_seeded: check exit status $rc"
 exit $rc
